@@ -145,3 +145,291 @@ def trace_conforms(trace, registered):
                 return '%s.__init__(%s=%r) does not conform to %s' % (
                     cls.__name__, name, val, anns[name])
     return None
+
+
+# ===========================================================================
+# Reference load semantics (C02, C03): a deliberately naive interpreter of
+# the documented pipeline on the ORIGINAL node tree (it never shares code with
+# yatiml's recognizer/constructor; plain YAML data below Any and the parsing
+# of scalar values are delegated to PyYAML's SafeConstructor, which is in the
+# trusted base).
+
+import yaml as _yaml
+
+
+class Reject(Exception):
+    """The documented pipeline does not admit the document."""
+
+
+class NoClaim(Exception):
+    """The documents/rules do not pin the outcome (accepted either way)."""
+
+
+CORE_PREFIX = 'tag:yaml.org,2002:'
+_SC = {str: T_STR, int: T_INT, float: T_FLOAT, bool: T_BOOL,
+       type(None): T_NULL, None: T_NULL, datetime.date: T_TS}
+
+
+class Ref:
+    def __init__(self, registered, resolver_loader_cls):
+        self.reg = list(registered)
+        self.tags = {'!' + c.__name__: c for c in self.reg}
+        self.loader_cls = resolver_loader_cls
+
+    # ------------------------------------------------------------ recognise
+    def recognize(self, node, t):
+        """Set of types node is recognised as, given expected type t."""
+        sc = isinstance(node, _yaml.ScalarNode)
+        if t is Any:
+            return {Any}
+        if t in _SC or t is yatiml.bool_union_fix:
+            want = T_BOOL if t is yatiml.bool_union_fix else _SC[t]
+            return {t} if sc and node.tag == want else set()
+        if t is pathlib.Path:
+            return {t} if sc and node.tag == T_STR else set()
+        if is_union(t):
+            out = set()
+            for a in args(t):
+                out |= self.recognize(node, a)
+            if bool in out and yatiml.bool_union_fix in out:
+                out.discard(yatiml.bool_union_fix)
+            return out
+        if is_seq(t):
+            if not isinstance(node, _yaml.SequenceNode):
+                return set()
+            for it in node.value:
+                r = self.recognize(it, args(t)[0])
+                if not r:
+                    return set()
+                if len(r) > 1:
+                    return {typing.List[x] for x in r}      # ambiguous
+            return {t}
+        if is_map(t):
+            if not isinstance(node, _yaml.MappingNode):
+                return set()
+            kt, vt = args(t)
+            for k, v in node.value:
+                rk = self.recognize(k, kt)
+                if not rk:
+                    return set()
+                if len(rk) > 1:
+                    return {typing.Dict[x, vt] for x in rk}
+                rv = self.recognize(v, vt)
+                if not rv:
+                    return set()
+                if len(rv) > 1:
+                    return {typing.Dict[kt, x] for x in rv}
+            return {t}
+        if inspect.isclass(t) and t in self.reg:
+            return self.recognize_classes(node, t)
+        raise Reject('type %r is not registered' % (t,))
+
+    def children(self, c):
+        return [d for d in self.reg if c in d.__bases__]
+
+    def matches(self, node, c):
+        """Does node match exactly class c (automatic recognition)?"""
+        if '_yatiml_recognize' in c.__dict__:
+            u = yatiml.UnknownNode(_Recognizer(self), node)
+            try:
+                c._yatiml_recognize(u)
+                return True
+            except yatiml.RecognitionError:
+                return False
+        sc = isinstance(node, _yaml.ScalarNode)
+        if issubclass(c, enum.Enum):
+            return sc and node.tag in (T_STR, T_BOOL)
+        if is_stringlike(c):
+            return sc and node.tag == T_STR
+        if not isinstance(node, _yaml.MappingNode):
+            return False
+        for name, ann, required, _ in params(c):
+            hit = None
+            for n in (name, name.replace('_', '-')):
+                vs = [v for k, v in node.value if k.value == n]
+                if len(vs) > 1:
+                    return False                # duplicate key
+                if vs:
+                    hit = vs[0]
+                    break
+            if hit is None:
+                if required:
+                    return False
+                continue
+            if not self.recognize(hit, ann):
+                return False
+        return True
+
+    def most_derived(self, node, c):
+        below = set()
+        for d in self.children(c):
+            below |= self.most_derived(node, d)
+        if below:
+            return below
+        if not is_abstract(c) and self.matches(node, c):
+            return {c}
+        return set()
+
+    def recognize_classes(self, node, c):
+        m = self.most_derived(node, c)
+        if not m:
+            return set()
+        tagged = self.tags.get(node.tag)
+        if len(m) > 1:
+            if tagged in m:
+                return {tagged}
+            return m
+        if not node.tag.startswith('tag:yaml.org,2002'):
+            if tagged is None or tagged not in m:
+                # a tag naming a registered ANCESTOR of the match that
+                # itself matches: the texts do not pin this corner
+                (only,) = m
+                if tagged is not None and issubclass(only, tagged) and \
+                        not is_abstract(tagged) and self.matches(node, tagged):
+                    raise NoClaim('tag names a matching ancestor')
+                return set()
+        return m
+
+    # ----------------------------------------------------------------- load
+    def plain_data(self, node):
+        """Plain YAML data below an Any / untyped / extra position: tags are
+        ignored (non-core scalar tags re-resolved, collections seq/map)."""
+        copy = self._stripped(node)
+        ldr = _yaml.SafeLoader('')          # pure PyYAML construction
+        try:
+            return ldr.construct_document(copy)
+        except _yaml.YAMLError as e:
+            raise Reject('yaml: %s' % type(e).__name__)
+        except (ValueError, KeyError, IndexError, AttributeError) as e:
+            raise Reject('malformed scalar: %s' % type(e).__name__)
+        finally:
+            ldr.dispose()
+
+    def _stripped(self, node):
+        if isinstance(node, _yaml.ScalarNode):
+            tag = node.tag
+            if not tag.startswith(CORE_PREFIX):
+                r = self.loader_cls('')
+                tag = r.resolve(_yaml.ScalarNode, node.value, (True, False))
+                r.dispose()
+            return _yaml.ScalarNode(tag, node.value, node.start_mark,
+                                    node.end_mark)
+        if isinstance(node, _yaml.SequenceNode):
+            return _yaml.SequenceNode(T_SEQ, [self._stripped(x)
+                                              for x in node.value],
+                                      node.start_mark, node.end_mark)
+        return _yaml.MappingNode(T_MAP, [(self._stripped(k),
+                                          self._stripped(v))
+                                         for k, v in node.value],
+                                 node.start_mark, node.end_mark)
+
+    def scalar(self, node, tag):
+        copy = _yaml.ScalarNode(tag, node.value, node.start_mark,
+                                node.end_mark)
+        return self.plain_data(copy)
+
+    def load(self, node, t):
+        types = self.recognize(node, t)
+        if len(types) != 1:
+            raise Reject('%d types recognised' % len(types))
+        (r,) = types
+        if r is Any:
+            return self.plain_data(node)
+        if r in _SC or r is yatiml.bool_union_fix:
+            return self.scalar(node, T_BOOL if r is yatiml.bool_union_fix
+                               else _SC[r])
+        if r is pathlib.Path:
+            return pathlib.Path(node.value)
+        if is_seq(r):
+            if node.tag != T_SEQ:
+                raise Reject('sequence with another tag')
+            return [self.load(x, args(r)[0]) for x in node.value]
+        if is_map(r):
+            if node.tag != T_MAP:
+                raise Reject('mapping with another tag')
+            out = {}
+            for k, v in node.value:
+                key = self.load(k, args(r)[0])
+                val = self.load(v, args(r)[1])
+                try:
+                    out[key] = val
+                except TypeError:
+                    raise Reject('unhashable key')
+            return out
+        return self.construct(node, r)
+
+    def savorize(self, node, c):
+        for b in c.__bases__:
+            if b in self.reg:
+                node = self.savorize(node, b)
+        if '_yatiml_savorize' in c.__dict__:
+            n = yatiml.Node(node)
+            try:
+                c._yatiml_savorize(n)
+            except yatiml.SeasoningError:
+                raise Reject('savorize raised SeasoningError')
+            node = n.yaml_node
+        return node
+
+    def construct(self, node, c):
+        node = self.savorize(node, c)
+        if issubclass(c, enum.Enum):
+            if not isinstance(node, _yaml.ScalarNode) or \
+                    node.value not in c.__members__:
+                raise Reject('not a member name')
+            return c[node.value]
+        if is_stringlike(c):
+            if not isinstance(node, _yaml.ScalarNode):
+                raise Reject('not a scalar')
+            try:
+                return c(node.value)
+            except Exception:        # noqa
+                raise Reject('string-like constructor raised')
+        if not isinstance(node, _yaml.MappingNode):
+            raise Reject('not a mapping after savorizing')
+        ps = params(c)
+        names = [n for n, _, _, _ in ps]
+        kwargs, extras = {}, OrderedDict()
+        seen = []
+        for k, v in node.value:
+            if not isinstance(k, _yaml.ScalarNode) or k.tag != T_STR:
+                raise Reject('key is not a string')
+            if k.value in ('self', '_yatiml_extra'):
+                raise NoClaim('a key named self / _yatiml_extra')
+            if k.value in names:
+                if k.value in seen:
+                    raise Reject('duplicate key')
+                seen.append(k.value)
+        for name, ann, required, _ in ps:
+            vs = [v for k, v in node.value if k.value == name]
+            if not vs:
+                if required:
+                    raise Reject('missing attribute ' + name)
+                continue
+            kwargs[name] = self.load(vs[0], ann)
+        for k, v in node.value:
+            if k.value not in names:
+                if not takes_extra(c):
+                    raise Reject('unknown attribute ' + k.value)
+                extras[k.value] = self.plain_data(v)
+        if takes_extra(c):
+            kwargs['_yatiml_extra'] = extras
+        try:
+            return c(**kwargs)
+        except Exception:        # noqa
+            raise Reject('constructor raised')
+
+
+class _Recognizer(yatiml.irecognizer.IRecognizer if hasattr(
+        yatiml, 'irecognizer') else object):
+    """Lets custom _yatiml_recognize functions of the class model call
+    require_attribute(name, type) against the reference rules."""
+    def __init__(self, ref):
+        self.ref = ref
+
+    def recognize(self, node, expected_type):
+        try:
+            r = self.ref.recognize(node, expected_type)
+        except Reject:
+            r = set()
+        return r, ('reference: not recognised', [])
